@@ -83,6 +83,10 @@ def main(tier, replay=None):
         mod = rng.choice([55, 1265, 1265 * 53])
         classes = [rng.randrange(mod) for _ in range(3)]
         ints = sorted({c + mod * rng.randrange(1, 2000) for c in classes for _ in range(nk)})[:nk]
+        if name != "String":
+            # plus keys whose home is the last / the first slot of every small table size: clusters that wrap around the end
+            M = 5 * 11 * 23 * 53
+            ints = sorted(set(ints[: nk - 6]) | {M - 1 + M * rng.randrange(0, 30) for _ in range(4)} | {M * rng.randrange(1, 30) for _ in range(2)})
         if name == "String":
             keys = sorted(mapgen.colliding_strings(harness, wd, ints, mod if mod < 70000 else 1265, rng))  # token order = byte order
         else:
